@@ -56,7 +56,7 @@ CLASSES = (['tr-m-minus1:' + a for a in ('surf-tr', 'trcl-num', 'fill-num',
            + ['facet-on-plain', 'fill-array-short', 'fill-array-long',
               'imp-unequal', 'imp-short', 'material-mixed-sign',
               'lattice-arg-malformed'])
-_PER = {'quick': 2, 'thorough': 60}
+_PER = {'quick': 3, 'thorough': 60}
 
 # parameter counts MCNP accepts for cards with optional entries
 VALID_COUNTS = {'p': {4, 9}, 'kx': {2, 3}, 'ky': {2, 3}, 'kz': {2, 3},
@@ -152,12 +152,17 @@ def build_pair(case):
             else:
                 bad.cli += ['--lattice', text]
             return deck, bad, f'--lattice {text!r}'
-        deck = (gen_lat.build_rect if rng.random() < 0.6 else
-                gen_lat.build_hex)(rng, 'cli-single')
+        for _ in range(20):
+            deck = (gen_lat.build_rect if rng.random() < 0.6 else
+                    gen_lat.build_hex)(rng, 'cli-single')
+            pos = deck.cli.index('--lattice')
+            ndim = len(deck.cli[pos + 1].split(',')) - 1
+            if (head == 'lattice-wrong-dim' and ndim == 1) or \
+                    (head == 'lattice-extra-range' and ndim == 3):
+                continue
+            break
         bad = copy.deepcopy(deck)
-        pos = bad.cli.index('--lattice')
         spec = bad.cli[pos + 1].split(',')
-        ndim = len(spec) - 1
         if head == 'lattice-no-option':
             del bad.cli[pos:pos + 2]
             return deck, bad, 'no --lattice option'
@@ -259,8 +264,13 @@ def build_pair(case):
     raise ValueError(cls)
 
 
-def mnemonic_group(kind):
-    return kind
+def inconclusive_reasons(tot, tier):
+    heads = sorted({cls.split(':')[0] for cls in CLASSES})
+    missing = [h for h in heads if not tot['counters'].get(f'class.{h}')]
+    if missing:
+        return ['fault class(es) with no applicable site in this run: '
+                + ', '.join(missing)]
+    return []
 
 
 def run(case, ctx):
